@@ -152,6 +152,7 @@ func main() {
 	maxPaths := fs.Int("max-paths", 2000000, "path budget per entry")
 	maxSeconds := fs.Int("max-seconds", 900, "wall-clock budget per entry (exceeded = truncated = inconclusive)")
 	maxLen := fs.Int("max-len", 8, "default bound for symbolic allocation lengths")
+	qlog := fs.String("qlog", "", "directory for per-worker SMT-LIB logs (cross-solver re-check)")
 	trace := fs.Bool("trace", false, "trace calls")
 	noMergeF := fs.Bool("no-merge", false, "disable if-conversion of pure diamonds (debugging / cross-check)")
 	fs.Parse(os.Args[2:])
@@ -217,7 +218,7 @@ func main() {
 	eng := &engine{
 		prog: prog, hpkg: hpkg, repoPrefix: modPrefix,
 		models: map[string]*ssa.Function{}, noInit: map[string]string{},
-		maxSteps: *maxSteps, maxChoices: *maxChoices, maxAlloc: 16 << 20, maxLen: *maxLen, maxPaths: *maxPaths, maxSeconds: *maxSeconds,
+		maxSteps: *maxSteps, maxChoices: *maxChoices, maxAlloc: 16 << 20, maxLen: *maxLen, maxPaths: *maxPaths, maxSeconds: *maxSeconds, qlogDir: *qlog,
 		workers: *workers, solverBin: *solver, solverTimeout: *timeout, fset: prog.Fset,
 		covered: map[string]bool{}, allFuncs: map[*ssa.Function]bool{}, allNotes: map[string]bool{}, lazyInits: map[string]bool{},
 		thorough: *thorough,
